@@ -69,7 +69,10 @@ func world(thorough bool) {
 	tcb := labnet.Pay([]labnet.Out{P.Reward[7]}, labnet.Prog(0x33))
 	a2 := w.AddBlock(a1, "a2", labnet.BlockOpt{Txs: []*types.Tx{tcb}})
 	tveto := labnet.Pay([]labnet.Out{{Tx: tv, Idx: 0}}, labnet.Prog(0x34))
-	a3 := w.AddBlock(a2, "a3", labnet.BlockOpt{Txs: []*types.Tx{tveto}})
+	// a3 registers contract K once more (by another transaction than a1 did): when a1..a3 are attached by ONE
+	// reorganisation and a3 is detached later, K must stay registered by a1's transaction
+	tk3 := labnet.Tx([]labnet.Out{{Tx: tk1, Idx: 2}}, []*types.TxOutput{btm(10000000, reg), btm(chainlab.UAmount-110000000-labnet.Fee-10000000-labnet.Fee, labnet.Prog(0x3a))})
+	a3 := w.AddBlock(a2, "a3", labnet.BlockOpt{Txs: []*types.Tx{tveto, tk3}})
 	tn1 := labnet.Pay([]labnet.Out{{Tx: tv, Idx: 1}}, labnet.Prog(0x35))
 	c3 := w.AddBlock(a2, "c3", labnet.BlockOpt{Tag: 2, Txs: []*types.Tx{tn1}})
 	c4 := w.AddBlock(c3, "c4", labnet.BlockOpt{Tag: 2})
